@@ -4,6 +4,10 @@ package f3
 
 import (
 	"context"
+	"errors"
+
+	pubsub "github.com/libp2p/go-libp2p-pubsub"
+	"go.uber.org/multierr"
 
 	"github.com/filecoin-project/go-f3/certstore"
 	"github.com/filecoin-project/go-f3/ec"
@@ -47,3 +51,50 @@ func (v *VerifInputs) GetProposal(ctx context.Context, instance uint64) (*gpbft.
 func (v *VerifInputs) GetCommittee(ctx context.Context, instance uint64) (*gpbft.Committee, error) {
 	return v.in.GetCommittee(ctx, instance)
 }
+
+// the real gpbftRunner (not started: no topic is joined, so a message that reaches the publication point yields
+// pubsub.ErrTopicClosed); used to drive the real BroadcastMessage / rebroadcastMessage / WAL replay at construction
+type VerifRunner struct{ r *gpbftRunner }
+
+func VerifNewRunner(ctx context.Context, cs *certstore.Store, backend ec.Backend, ps *pubsub.PubSub, v gpbft.Verifier, m manifest.Manifest, wal *VerifWAL, local string) (*VerifRunner, error) {
+	out := make(chan *gpbft.MessageBuilder, 64)
+	r, err := newRunner(ctx, cs, backend, ps, v, out, m, wal, peerID(local))
+	if err != nil {
+		return nil, err
+	}
+	return &VerifRunner{r: r}, nil
+}
+
+// returns (reached the publication point, error other than the closed topic)
+func (v *VerifRunner) Broadcast(ctx context.Context, msg *gpbft.GMessage) (bool, error) {
+	err := v.r.BroadcastMessage(ctx, msg)
+	if errors.Is(err, pubsub.ErrTopicClosed) {
+		return true, nil
+	}
+	return false, err
+}
+func (v *VerifRunner) Rebroadcast(msg *gpbft.GMessage) (bool, error) {
+	err := v.r.rebroadcastMessage(msg)
+	if errors.Is(err, pubsub.ErrTopicClosed) {
+		return true, nil
+	}
+	return false, err
+}
+
+// the real RequestRebroadcast: number of messages that reached the publication point
+func (v *VerifRunner) RequestRebroadcast(in gpbft.Instant) int {
+	err := (*gpbftHost)(v.r).RequestRebroadcast(in)
+	n := 0
+	for _, e := range multierr.Errors(err) {
+		if errors.Is(e, pubsub.ErrTopicClosed) {
+			n++
+		}
+	}
+	return n
+}
+func (v *VerifRunner) SelfMessages(in gpbft.Instant) []*gpbft.GMessage {
+	v.r.msgsMutex.Lock()
+	defer v.r.msgsMutex.Unlock()
+	return append([]*gpbft.GMessage{}, v.r.selfMessages[in.ID][roundPhase{round: in.Round, phase: in.Phase}]...)
+}
+func (v *VerifRunner) Cancel() { v.r.ctxCancel() }
